@@ -26,6 +26,10 @@ pub struct Mixed {
     pub ops: Vec<MOp>,
     /// false: SynExprSubst (default), true: ExtractionSubst
     pub extraction_subst: bool,
+    /// 0: rules as written; 1: the slot names inside the rules are renamed ($x -> $rz, $y -> $ry, ...) and interned in the
+    /// reverse order first (rules are inputs too: C11)
+    #[serde(default)]
+    pub rule_slot_variant: u8,
 }
 
 #[derive(Clone, Debug)]
@@ -65,6 +69,7 @@ pub fn rule_pool(lang: LangId) -> Vec<RuleTxt> {
             r("p-dup", "(p ?a ?a)", "(w ?a)"),
             r("w-intro", "(p ?a ?b)", "(p (w ?a) ?b)"),
             r("g3-swap", "(g3 $x $y $z)", "(g3 $y $x $z)"),
+            r("g3-to-f2", "(p (g3 $z $x $y) ?t)", "(p (f2 $y $z) ?t)"),
             r("g3-drop", "(g3 $x $y $z)", "(f2 $x $y)"),
         ],
         LangId::Lambda => vec![
@@ -115,6 +120,72 @@ pub fn rule_pool(lang: LangId) -> Vec<RuleTxt> {
             r("neg-neg", "(neg (neg ?a))", "?a"),
             rs("let-subst", "(let $x ?b ?e)", "?b[(var $x) := ?e]"),
         ],
+    }
+}
+
+/// the rule with its pattern slots renamed: `$name` -> `$r<name>`; the new names are interned in reverse alphabetical order of
+/// the old ones, so that their internal order is the reverse of the original one
+pub fn build_rule_renamed<L: Language + 'static, N: Analysis<L> + 'static>(rt: &RuleTxt) -> Rewrite<L, N> {
+    fn names_in(s: &str) -> Vec<String> {
+        let mut out = Vec::new();
+        let cs: Vec<char> = s.chars().collect();
+        let mut i = 0;
+        while i < cs.len() {
+            if cs[i] == '$' {
+                let mut j = i + 1;
+                while j < cs.len() && !cs[j].is_whitespace() && !"()[]".contains(cs[j]) {
+                    j += 1;
+                }
+                let n: String = cs[i + 1..j].iter().collect();
+                if !out.contains(&n) {
+                    out.push(n);
+                }
+                i = j;
+            } else {
+                i += 1;
+            }
+        }
+        out
+    }
+    let mut names = names_in(rt.lhs);
+    for n in names_in(rt.rhs) {
+        if !names.contains(&n) {
+            names.push(n);
+        }
+    }
+    if let Some((sl, _)) = rt.not_free {
+        if !names.contains(&sl.to_string()) {
+            names.push(sl.to_string());
+        }
+    }
+    let mut sorted = names.clone();
+    sorted.sort();
+    for n in sorted.iter().rev() {
+        let _ = Slot::named(&format!("r{}", n));
+    }
+    let ren = |s: &str| -> String {
+        let mut out = String::new();
+        let cs: Vec<char> = s.chars().collect();
+        let mut i = 0;
+        while i < cs.len() {
+            if cs[i] == '$' {
+                out.push_str("$r");
+                i += 1;
+            } else {
+                out.push(cs[i]);
+                i += 1;
+            }
+        }
+        out
+    };
+    let (lhs, rhs) = (ren(rt.lhs), ren(rt.rhs));
+    match rt.not_free {
+        None => Rewrite::new(rt.name, &lhs, &rhs),
+        Some((s, v)) => {
+            let slot = Slot::named(&format!("r{}", s));
+            let var = v.to_string();
+            Rewrite::new_if(rt.name, &lhs, &rhs, move |subst, _| !subst[&*var].slots().contains(&slot))
+        }
     }
 }
 
@@ -248,6 +319,7 @@ pub fn decode_mixed(cfg: &MixedCfg, chunks: &[Vec<u16>], extra: u16) -> Mixed {
         naming,
         ops,
         extraction_subst: cfg.allow_extraction_subst && (extra >> 8) & 1 == 1,
+        rule_slot_variant: 0,
     }
 }
 
@@ -308,7 +380,10 @@ pub fn drive<L: Language + 'static, N: Analysis<L> + 'static>(
                 }
             }
             MOp::Rewrite(rs) => {
-                let rules: Vec<Rewrite<L, N>> = rs.iter().map(|i| build_rule::<L, N>(&pool[*i % pool.len()])).collect();
+                let rules: Vec<Rewrite<L, N>> = rs
+                    .iter()
+                    .map(|i| if case.rule_slot_variant == 1 { build_rule_renamed::<L, N>(&pool[*i % pool.len()]) } else { build_rule::<L, N>(&pool[*i % pool.len()]) })
+                    .collect();
                 if apply_rewrites(eg, &rules) {
                     st.rewrites_changed += 1;
                 }
@@ -352,6 +427,6 @@ impl Mixed {
                 _ => return Err(format!("unknown command {op}")),
             }
         }
-        Ok(Mixed { lang, naming: Naming::Alpha, ops, extraction_subst })
+        Ok(Mixed { lang, naming: Naming::Alpha, ops, extraction_subst, rule_slot_variant: 0 })
     }
 }
